@@ -39,3 +39,34 @@ Proof. vm_compute. reflexivity. Qed.
 Lemma family_nontrivial :
   (1000 <=? Z.of_nat (length (filter (id_okb repl_table esc_prefix_kw) family))) = true.
 Proof. vm_compute. reflexivity. Qed.
+
+(* ------------------------------------------------------------ general part: the prefix *)
+(* For ANY table with the side condition and ANY admissible identifier, stripping the prefix undoes
+   adding it, so the identifier round trip reduces to the replacement round trip
+   `undo_repl T (apply_repl T w) = w`. *)
+Lemma prefixb_app p s : prefixb p (p ++ s) = true.
+Proof. induction p as [|x p IH]; cbn; [reflexivity|]. rewrite Z.eqb_refl, IH. reflexivity. Qed.
+
+Lemma skipn_app_len {A} (p s : list A) : skipn (length p) (p ++ s) = s.
+Proof. induction p; cbn; auto. Qed.
+
+Lemma starts_digit_app p s : p <> [] -> starts_digit (p ++ s) = starts_digit p.
+Proof. destruct p; [congruence | reflexivity]. Qed.
+
+Theorem escape_reduce T kws P w : wf_repl T P = true -> id_okb T P w = true ->
+  unescape_name T P (length P) (escape_word T kws P w) = undo_repl T (apply_repl T w).
+Proof.
+  intros Hwf Hid. unfold wf_repl in Hwf. repeat (apply andb_true_iff in Hwf as [Hwf ?]).
+  assert (HP : P <> []) by (destruct P; [discriminate | discriminate]).
+  assert (HD : starts_digit P = false) by (apply negb_true_iff; assumption).
+  unfold id_okb in Hid. repeat (apply andb_true_iff in Hid as [Hid ?]).
+  assert (HN : prefixb P (apply_repl T w) = false).
+  { match goal with Hx : negb (prefixb P (apply_repl T w)) = true |- _ => apply negb_true_iff in Hx; exact Hx end. }
+  unfold unescape_name, escape_word. set (w2 := apply_repl T w) in *.
+  assert (Pre : unescape_name T P (length P) (P ++ w2) = undo_repl T w2).
+  { unfold unescape_name. rewrite prefixb_app, skipn_app_len. reflexivity. }
+  unfold unescape_name in Pre.
+  destruct (mem w2 kws).
+  - rewrite (starts_digit_app P w2 HP), HD. exact Pre.
+  - destruct (starts_digit w2); [exact Pre|]. rewrite HN. reflexivity.
+Qed.
